@@ -62,6 +62,7 @@ func main() {
 	oracles := fl.String("oracles", "", "comma separated property oracles to run (C01,C02,...)")
 	rss := fl.String("rs", "20,1,3", "record sizes to cycle through")
 	replay := fl.String("replay", "", "replay a history file instead of generating")
+	mode := fl.String("mode", "plain", "history shape: plain | ro (populate, reopen read-only, mixed calls) | reopen (reopen/rebuild in the middle)")
 	work := fl.String("work", "", "scratch directory (default: a fresh temp dir, removed afterwards)")
 	knownPath := fl.String("known", "/verif/known-findings.jsonl", "known findings file (read only)")
 	fl.Parse(os.Args[2:])
@@ -79,7 +80,7 @@ func main() {
 	switch stream {
 	case "fs":
 		res = runFS(fsOpts{seed: *seed, n: *n, length: *length, workers: *workers, driver: *driver, wild: *wild,
-			oracles: splitList(*oracles), rs: ints(*rss), scratch: scratch, replay: *replay, known: loadKnown(*knownPath)})
+			oracles: splitList(*oracles), rs: ints(*rss), scratch: scratch, replay: *replay, known: loadKnown(*knownPath), mode: *mode})
 	default:
 		fmt.Fprintln(os.Stderr, "unknown stream", stream)
 		os.Exit(2)
@@ -134,6 +135,7 @@ type fsOpts struct {
 	scratch string
 	replay  string
 	known   *Known
+	mode    string
 }
 
 func has(xs []string, x string) bool {
@@ -230,14 +232,51 @@ func runFS(o fsOpts) *result {
 				c := h.DefaultCfg()
 				c.RS = o.rs[j%len(o.rs)]
 				g := h.NewGen(o.seed*1_000_003+int64(j), h.Profile{Wild: o.wild, Symlinks: o.wild, MaxContent: 1500})
+				gw := h.NewGen(o.seed*1_000_003+int64(j)+7, h.Profile{Wild: true, Symlinks: false, MaxContent: 600})
 				i := 0
+				initCall := h.Call{Method: "initialize", Args: []string{h.EncName("/"), "511"}}
+				pivot := o.length / 2
 				next := func() (h.Call, bool) {
 					i++
 					if i == 1 {
-						return h.Call{Method: "initialize", Args: []string{h.EncName("/"), "511"}}, true
+						return initCall, true
 					}
 					if i > o.length {
 						return h.Call{}, false
+					}
+					switch o.mode {
+					case "ro":
+						// populate with a clean history, then a fresh read-only process over the same
+						// drive (index kept or dropped, with or without a write backend), then anything
+						if i == pivot {
+							args := []string{"index=keep", "ro=1"}
+							if j%2 == 1 {
+								args[0] = "index=drop"
+							}
+							if j%4 >= 2 {
+								args = append(args, "nowrite=1")
+							}
+							return h.Call{Method: "@reopen", Args: args}, true
+						}
+						if i == pivot+1 {
+							return initCall, true
+						}
+						if i > pivot {
+							gw.SyncShadow(g)
+							return gw.Next(), true
+						}
+					case "reopen":
+						// a fresh read-write process in the middle: index kept, or dropped and rebuilt
+						if i == pivot {
+							args := []string{"index=keep", "ro=0"}
+							if j%2 == 1 {
+								args[0] = "index=drop"
+							}
+							return h.Call{Method: "@reopen", Args: args}, true
+						}
+						if i == pivot+1 {
+							return initCall, true
+						}
 					}
 					return g.Next(), true
 				}
